@@ -118,25 +118,12 @@ impl Property for C01 {
                 return Err((Failure::new(format!("small-scope exhaustive search: {}", e)).with_detail(json!({"documents": docs})), json!({"small_scope_documents": docs})));
             }
         }
-        if tier == Tier::Thorough {
-            let runs = std::env::var("XSGV_FUZZ_RUNS").ok().and_then(|s| s.parse().ok()).unwrap_or(15_000u64);
-            let seeds: Vec<Vec<u8>> = crate::runner::gen_tapes(self, seed ^ 0x7a9e, 200)
-                .into_iter()
-                .map(|t| {
-                    let n = t.a.len().min(1023);
-                    let mut v = vec![(n >> 8) as u8, (n & 255) as u8];
-                    v.extend_from_slice(&t.a[..n]);
-                    v.extend_from_slice(&t.b);
-                    v
-                })
-                .collect();
-            let c = crate::fuzzrun::Campaign { target: "fz_tape", runs_per_worker: runs, workers: 16, seed: seed ^ 0x01, max_len: 2048, seeds };
-            crate::fuzzrun::campaign_for("C01", &c, st)?;
-        }
+        // the coverage-guided tape campaign lives in C03 (its target runs this property's oracle as well)
+        let _ = seed;
         Ok(())
     }
     fn replay_custom(&self, payload: &Value) -> Result<(), Failure> {
-        if let Some(docs) = payload["small_scope_documents"].as_array() {
+        if payload["small_scope_documents"].is_array() {
             // the C03 replay rebuilds the DOM of canonical documents; admits() is implied by its exact comparison
             return crate::props::c03::C03.replay_custom(payload);
         }
